@@ -1,6 +1,7 @@
 import Pyrealb.Lemmas.ClauseFrRank
 import Pyrealb.Lemmas.ClauseFrNesting
 import Pyrealb.Lemmas.ClauseFrClause
+import Pyrealb.Lemmas.ClauseFrFinite
 import Pyrealb.Model.ClauseFrRealize
 /-! # C05 — French clause transformations: negation, auxiliaries, clitics, inversion
 
@@ -954,5 +955,38 @@ def reversed4 : Spec :=
 example : FirstVerbMain reversed4 := firstVerbMain_of_check _ (by decide)
 example : (phraseToks reversed4).map (fun r => r.1.map Tok.form) =
     .ok ["il".toList, "ne".toList, "le".toList, "lui".toList, "y".toList, "en".toList, "donne".toList, "pas".toList] := by decide
+
+/-! ## one finite verb, on the tokens of the whole realized clause -/
+
+/-- **C05 one finite verb, clause level**: in the token list of the realized clause (constituent notation, no
+    interrogative; any subject, verb, tense, complements, passive / progressive / modality / negation / reflexive),
+    every verb token behind the first one is an infinitive, a past participle, or the participle half of a compound
+    tense (`NonFin`): at most one finite form, and it is the first verb -/
+def one_finite_verb_clause : Prop :=
+  ∀ (sp : Spec) (toks : List Tok) (e : Str), sp.typ.int = none → phraseToks sp = .ok (toks, e) →
+    ∀ t ∈ (vts toks).tail, NonFin t
+
+theorem one_finite_verb_clause_holds : one_finite_verb_clause := by
+  intro sp toks e hint h
+  unfold phraseToks at h
+  obtain ⟨⟨sel, vp, endS⟩, hty, h⟩ := bindE_ok _ _ _ h
+  obtain ⟨hsel, hvpi, _⟩ := phraseTyped_inv sp sel vp endS hint hty
+  simp only at h
+  obtain ⟨toks', hreal, h⟩ := bindE_ok _ _ _ h
+  simp only [pure, Except.pure, Except.ok.injEq, Prod.mk.injEq] at h
+  obtain ⟨rfl, _⟩ := h
+  exact phraseReal_one_finite sp.typ.refl sel vp toks' _ _ hsel hvpi hreal
+
+/-- `doPronounPlacement` keeps the verbs of ANY token list: same number, same order, same tenses -/
+theorem placement_keeps_verbs (refl : Bool) (cl out : List Tok) (h : placePronouns refl cl = .ok out) :
+    vts out = vts cl := vts_place refl cl out h
+
+/-- non-vacuity: « il ne le a pas pu être en train de donner » — four verb tokens, only the first one finite (the
+    second is the participle half of the compound tense) -/
+def nested4 : Spec :=
+  { subj := some (.pro false 3 .s .m), verb := witnessVerbLex, t := Tense.pc,
+    comps := [.dir { id := 1, g := .m, n := .s, pro := true }],
+    typ := { neg := some .yes, prog := true, mod := some "poss".toList } }
+example : (phraseToks nested4).map (fun r => vts r.1) = .ok [Tense.p, Tense.pc, Tense.b, Tense.b] := by decide
 
 end Pyrealb.C05
